@@ -23,7 +23,7 @@ from fractions import Fraction
 
 VERIF = os.path.dirname(os.path.dirname(os.path.abspath(__file__)))
 COQ = os.path.join(VERIF, 'coq')
-REPO = os.environ.get('QUANTITY_REPO', '/repo')
+REPO = (os.environ.get('QUANTITY_REPO') or '/repo')
 SRC = os.path.join(REPO, 'src')
 EVID = os.path.join(VERIF, 'evidence')
 REPLAYS = os.path.join(EVID, 'replays')
